@@ -932,3 +932,100 @@ def rt_c15_grid(tier="quick", first_only=False, count=None):
     if count is not None:
         count.append(n_ev)
     return fails
+
+
+# --------------------------------------------------------------------------------------
+# C17 losses against NumPy re-evaluation through the public distribution API
+def rt_c17(tier="quick", first_only=False, count=None):
+    import equinox as eqx
+    import flowjax.distributions as Dm
+    import flowjax.flows as Fl
+    import flowjax.train.losses as L
+    import jax.random as jr
+    from scipy.special import logsumexp as np_lse
+
+    fails, n = [], 0
+
+    def part(d):
+        return eqx.partition(d, eqx.is_inexact_array)
+
+    def add(msg, case):
+        fails.append(dict(what=msg, case=case))
+
+    k = jr.PRNGKey(3)
+    dists = [("Normal([.3,-1],[1.7,.5])", Dm.Normal(jnp.array([0.3, -1.0]), jnp.array([1.7, 0.5])), None),
+             ("coupling_flow(cond_dim=2) perturbed", _perturb(Fl.coupling_flow(k, base_dist=Dm.Normal(jnp.zeros(2), jnp.ones(2)), cond_dim=2, flow_layers=2), 4), 2)]
+    # ---- maximum likelihood
+    for name, d, cd in dists:
+        for B in (1, 4):
+            n += 1
+            rng = np.random.default_rng(B)
+            x = jnp.asarray(rng.normal(size=(B, 2)))
+            c = None if cd is None else jnp.asarray(rng.normal(size=(B, cd)))
+            p, s = part(d)
+            got = float(L.MaximumLikelihoodLoss()(p, s, x, c))
+            ref = -float(np.mean(np.asarray(d.log_prob(x, c))))
+            if not _close(got, ref, tol=1e-9):
+                add(f"MaximumLikelihoodLoss on {name}, batch {B}: {got!r} but -mean(log_prob) = {ref!r}", dict(loss="mle", dist=name, batch=B))
+    # ---- ELBO
+    q = Dm.Normal(jnp.array([0.4, -0.2]), jnp.array([0.8, 1.3]))
+    target = lambda x: -0.5 * jnp.sum((x - 1.0) ** 2)  # noqa: E731
+    p, s = part(q)
+    for ns in (1, 5, 50):
+        n += 1
+        key = jr.PRNGKey(ns)
+        v0 = float(L.ElboLoss(target, ns)(p, s, key))
+        v1 = float(L.ElboLoss(target, ns, stick_the_landing=True)(p, s, key))
+        smp = q.sample(key, (ns,))
+        ref = float(np.mean(np.asarray(q.log_prob(smp)) - np.asarray(jax.vmap(target)(smp))))
+        if not _close(v0, ref, tol=1e-8):
+            add(f"ElboLoss(num_samples={ns}) = {v0!r}; mean over samples drawn with the key of log q - target = {ref!r}", dict(loss="elbo", n=ns))
+        if not _close(v0, v1, tol=1e-8):
+            add(f"ElboLoss(num_samples={ns}): value {v0!r} without and {v1!r} with stick_the_landing", dict(loss="elbo", n=ns))
+    # STL gradient omits the score-function term: analytic for a diagonal Normal
+    n += 1
+    key = jr.PRNGKey(11)
+    ns = 7
+    g = jax.grad(lambda pp: L.ElboLoss(target, ns, stick_the_landing=True)(pp, s, key))(p)
+    loc, scale = np.asarray(q.loc), np.asarray(q.scale)
+    xs = np.asarray(q.sample(key, (ns,)))
+    eps = (xs - loc) / scale
+    # d/dloc [ log q_{stopped}(x(loc)) - target(x(loc)) ] = -(x-loc)/scale^2 + (x - 1)
+    ref_loc = np.mean(-eps / scale + (xs - 1.0), axis=0)
+    got_loc = np.asarray(g.bijection.loc)
+    if not np.allclose(got_loc, ref_loc, rtol=1e-7, atol=1e-9):
+        add(f"stick-the-landing gradient w.r.t. loc is {got_loc}; the path-derivative-only estimator gives {ref_loc} (score-function term must be omitted)", dict(loss="elbo-stl-grad"))
+    # ---- contrastive
+    name, d, cd = dists[1]
+    prior = Dm.Normal(jnp.array([0.1, 0.3]), jnp.array([1.5, 0.7]))
+    for B, nc in ((3, 1), (5, 2), (5, 4), (8, 3)):
+        for seed in (0, 1):
+            n += 1
+            rng = np.random.default_rng(B * 10 + nc)
+            x = jnp.asarray(rng.normal(size=(B, 2)))
+            c = jnp.asarray(rng.normal(size=(B, cd)))
+            key = jr.PRNGKey(seed)
+            p_, s_ = part(d)
+            got = float(L.ContrastiveLoss(prior, nc)(p_, s_, x, c, key))
+            idxs = np.asarray(L._get_contrastive_idxs(key, B, nc))
+            case = dict(loss="contrastive", batch=B, n_contrastive=nc, seed=seed)
+            for i in range(B):
+                row = list(idxs[i])
+                if len(row) != nc or len(set(row)) != nc or i in row or min(row) < 0 or max(row) >= B:
+                    add(f"contrastive indices of row {i} (batch {B}, n_contrastive {nc}): {row} are not {nc} distinct other rows", case)
+            lq = lambda xx, cc: np.asarray(d.log_prob(xx, cc)) - np.asarray(prior.log_prob(xx))  # noqa: E731
+            rows = []
+            for i in range(B):
+                pos = float(lq(x[i], c[i]))
+                con = [float(lq(x[j], c[i])) for j in idxs[i]]
+                rows.append(-(pos - float(np_lse(con + [pos]))))
+            ref = float(np.mean(rows))
+            if not _close(got, ref, tol=1e-8):
+                add(f"ContrastiveLoss(batch {B}, n_contrastive {nc}) = {got!r}; softmax cross-entropy over the same index sets = {ref!r}", case)
+            if got < -1e-12:
+                add(f"ContrastiveLoss is negative: {got!r}", case)
+        if first_only and fails:
+            return fails
+    if count is not None:
+        count.append(n)
+    return fails
